@@ -165,7 +165,7 @@ func genEdits(r *rand.Rand, g *SpecGen, marker string, nonEmpty bool) specs.Cont
 					d.Permissions = pickStr(r, "r", "rw", "rwm", "m", "w")
 				}
 				if chance(r, 30) {
-					d.FileMode = fmode(uint32([]int{0o600, 0o660, 0o666, 0}[r.Intn(4)]))
+					d.FileMode = fmode(uint32([]int{0o600, 0o660, 0o666, 0, 0o20666 /* S_IFCHR|0666 as stat reports it */, 0o7777, 0o100644, 1 << 31}[r.Intn(8)]))
 				}
 				if chance(r, 30) {
 					d.UID = u32p(uint32(r.Intn(3) * 1000))
